@@ -267,6 +267,9 @@ def run_property(prop_id, tier="quick", root=None, replay=None, quiet=False,
         mod.run(ctx)
         if not ctx.obligations:
             raise AnalysisError("no obligations generated")
+        if ctx.thorough and write_evidence:
+            from . import selftest
+            selftest.attach(ctx)
         rc = finish(ctx, t0, write_evidence=write_evidence)
         return rc, ctx
     except AnalysisError as e:
